@@ -552,9 +552,18 @@ func (f *ccmFam) Gen(r *hx.Run) {
 		newCamp := func() *campaign {
 			var src uint64
 			regs := registered()
-			if len(regs) > 0 && rng.Chance(5, 6) {
+			var voteRegs []uint64
+			for _, c := range regs {
+				if chainRouter[c] == 0 {
+					voteRegs = append(voteRegs, c)
+				}
+			}
+			switch {
+			case len(voteRegs) > 0 && rng.Chance(4, 6):
+				src = voteRegs[rng.Intn(len(voteRegs))]
+			case len(regs) > 0 && rng.Chance(1, 2):
 				src = regs[rng.Intn(len(regs))]
-			} else {
+			default:
 				src = universe[rng.Intn(len(universe))]
 			}
 			cp := &campaign{src: src, h: uint32(rng.Intn(3)), m: pool[rng.Intn(len(pool))]}
@@ -564,21 +573,21 @@ func (f *ccmFam) Gen(r *hx.Run) {
 		nOps := 20 + rng.Intn(40)
 		for k := 0; k < nOps; k++ {
 			switch x := rng.Intn(20); {
-			case x < 14: // import
+			case x < 15: // import
 				var cp *campaign
-				if len(camps) == 0 || rng.Chance(1, 5) {
+				if len(camps) == 0 || rng.Chance(1, 8) {
 					cp = newCamp()
 				} else {
-					cp = camps[rng.Intn(len(camps))]
+					cp = camps[len(camps)-1-rng.Intn(minInt(len(camps), 2))]
 				}
 				voter := cp.next % (nCons + nCand + 1)
-				if rng.Chance(1, 4) {
+				if rng.Chance(1, 6) {
 					voter = rng.Intn(nCons + nCand + 2)
 				}
 				cp.next++
 				signers := fmt.Sprint(voter)
 				rl := fmt.Sprint(voter)
-				switch rng.Intn(16) {
+				switch rng.Intn(24) {
 				case 0:
 					signers = "-"
 				case 1:
@@ -603,7 +612,20 @@ func (f *ccmFam) Gen(r *hx.Run) {
 				} else if rt != 0 {
 					cls = fmt.Sprintf("r%d", rt)
 				}
-				r.Nontrivial(strings.Fields(res)[0] + "/" + cls + "/" + fmt.Sprint(f.black[cp.src], cp.m.dec && f.black[cp.m.p.ToChainID]))
+				out := strings.Fields(res)[0]
+				r.Nontrivial(out + "/" + cls + "/" + fmt.Sprint(f.black[cp.src], cp.m.dec && f.black[cp.m.p.ToChainID]))
+				if out == "ok" && rng.Chance(2, 3) {
+					// replay: the same message again (same id), as a new vote round with another height or another content
+					m2 := cp.m
+					if rng.Chance(1, 3) {
+						p2 := cp.m.p
+						p2.Args = append(append([]byte{}, p2.Args...), 0x42)
+						sink := common.NewZeroCopySink(nil)
+						p2.Serialization(sink)
+						m2 = &msg{p: p2, raw: sink.Bytes(), dec: true}
+					}
+					camps = append(camps, &campaign{src: cp.src, h: cp.h + 1 + uint32(rng.Intn(2)), m: m2})
+				}
 			case x < 17: // black / white
 				ch := universe[rng.Intn(len(universe))]
 				signer := "op"
